@@ -53,17 +53,20 @@ Checkpoints(blocks) == CheckpointsR(blocks, 1, 0, 0)
 
 (* Skip index: layer 0 is the sequence of checkpoints; an entry of layer k+1 summarises a     *)
 (* group of 8 consecutive entries of layer k (the last group may be shorter) and points to   *)
-(* the first of them.  Layer k+1 exists iff layer k has at least 8 entries.                   *)
+(* the first of them.  While the store is written, a layer passes one entry up per 8 entries  *)
+(* it received; when the store is closed each layer flushes its rest and hands the pointer to  *)
+(* the next layer *if that layer exists*: so layer k+1 exists iff layer k received at least 8  *)
+(* entries before the close (`ins`), and the top layer can hold up to 8 entries.               *)
 Groups(n) == (n + CheckpointPeriod - 1) \div CheckpointPeriod
 Up(L) == [g \in 1..Groups(Len(L)) |->
             LET a == (g - 1) * CheckpointPeriod + 1
                 b == IF g * CheckpointPeriod < Len(L) THEN g * CheckpointPeriod ELSE Len(L)
             IN [start |-> L[a].start, end |-> L[b].end, child |-> a]]
 
-RECURSIVE LayersR(_)
-LayersR(L) == IF Len(L) < CheckpointPeriod THEN <<L>> ELSE <<L>> \o LayersR(Up(L))
+RECURSIVE LayersR(_, _)
+LayersR(L, ins) == IF ins < CheckpointPeriod THEN <<L>> ELSE <<L>> \o LayersR(Up(L), ins \div CheckpointPeriod)
 \* bottom layer first
-Layers(blocks) == IF blocks = <<>> THEN <<>> ELSE LayersR(Checkpoints(blocks))
+Layers(blocks) == IF blocks = <<>> THEN <<>> ELSE LayersR(Checkpoints(blocks), Len(blocks))
 NumLayers(blocks) == Len(Layers(blocks))
 
 \* first entry at or after `from` whose range ends after the target; 0 if none
@@ -79,15 +82,19 @@ SeekR(layers, k, from, t) ==
   ELSE IF k = 1 THEN i
   ELSE SeekR(layers, k - 1, layers[k][i].child, t)
 \* index of the block holding doc id t (0-based), 0 if there is none
-Seek(blocks, t) == IF blocks = <<>> THEN 0 ELSE SeekR(Layers(blocks), NumLayers(blocks), 1, t)
+SeekL(layers, t) == IF layers = <<>> THEN 0 ELSE SeekR(layers, Len(layers), 1, t)
+Seek(blocks, t) == SeekL(Layers(blocks), t)
 
 \* what it must be
-BlockOf(blocks, t) ==
-  LET cps == Checkpoints(blocks)
-      S == {i \in 1..Len(cps) : cps[i].start <= t /\ t < cps[i].end}
+BlockOfC(cps, t) ==
+  LET S == {i \in 1..Len(cps) : cps[i].start <= t /\ t < cps[i].end}
   IN IF S = {} THEN 0 ELSE CHOOSE i \in S : TRUE
+BlockOf(blocks, t) == BlockOfC(Checkpoints(blocks), t)
 
-SeekCorrect(blocks) == \A t \in 0..(NumDocs(blocks) + 2) : Seek(blocks, t) = BlockOf(blocks, t)
+SeekCorrect(blocks) ==
+  LET ls == Layers(blocks)
+      cps == Checkpoints(blocks)
+  IN \A t \in 0..(NumDocs(blocks) + 2) : SeekL(ls, t) = BlockOfC(cps, t)
 
 \* reading document t through the index: the block, then the position inside the block
 Fetch(blocks, blockContent, t) ==
